@@ -1,15 +1,33 @@
 (* C01 - property theorems: no client traffic to an emulated service can terminate the process.
-   Statements only; every proof is [exact lemma] (or a closed computation for a witness). *)
+   Statements only; every proof is [exact lemma] (or a closed computation for a witness).
+   The models follow /repo after the fix: commits 1603afd (ssh), 4aa01bd (vnc), 9cc3ebb (tftp). *)
 From HT Require Import Common.Bytes C17.Model C17.Proofs C01.Model C01.Check C01.Proofs.
 Open Scope Z_scope.
 
-(* ---- the full statement, on the modelled cores ---- *)
+(* ---- the full statement, on the modelled cores: no input, segmentation or schedule
+   leads to an outcome that handle cannot confine ---- *)
 Definition C01_full : Prop :=
-  (forall ty p s, ssh_request ty p <> RFatal s) /\
-  (forall stream, vnc_verdict stream = 0%N) /\
-  (forall dgss sched, trun (mkT (map (tftp_thread false) dgss) false) sched <> TFatal) /\
+  (forall ty p, ssh_request ty p = ROk) /\
+  (forall rs, ssh_requests rs = ROk) /\
+  (forall stream, vnc_handle stream = ROk) /\
+  (forall dgss sched, trun (t_init (map (tftp_thread false) dgss)) sched <> TFatal) /\
+  (forall dg, cs_handle dg = ROk \/ cs_handle dg = RPanic 1) /\
+  (forall segs, adb_handle segs = ROk \/ adb_handle segs = RPanic 2) /\
   (forall dg s, snmp_first dg <> Some (RFatal s)) /\
-  (forall st s, ldap_first st <> Some (RFatal s)).
+  (forall st s, ldap_first st <> Some (RFatal s)) /\
+  (forall seg rep s, ldap_nest seg rep <> Some (RFatal s)).
+
+(* the same with the three recorded finding classes taken out - and nothing else *)
+Definition C01_outside : Prop :=
+  (forall ty p, ssh_request ty p = ROk) /\
+  (forall rs, ssh_requests rs = ROk) /\
+  (forall stream, vnc_handle stream = ROk) /\
+  (forall dgss sched, trun (t_init (map (tftp_thread false) dgss)) sched <> TFatal) /\
+  (forall dg, cs_handle dg = ROk \/ cs_handle dg = RPanic 1) /\
+  (forall segs, adb_handle segs = ROk \/ adb_handle segs = RPanic 2) /\
+  (forall dg s, in_oom_class (snmp_tlv dg) = false -> snmp_first dg <> Some (RFatal s)) /\
+  (forall st s, in_oom_class (ldap_tlv st) = false -> ldap_first st <> Some (RFatal s)) /\
+  (forall seg rep s, ldap_depth seg rep < STACK_SURE -> ldap_nest seg rep <> Some (RFatal s)).
 
 (* ---- server/honeytrap.go handle: a failure inside Handle stays in the connection ---- *)
 Theorem C01_handle_confines : forall found send_ok s,
@@ -22,58 +40,44 @@ Theorem C01_process_down_only_by_fatal : forall found send_ok r,
   process_alive (server_handle found send_ok r) = false <-> found = true /\ exists s, r = RFatal s.
 Proof. exact process_down_iff. Qed.
 
-(* of the goroutines the 24 services start, exactly one has a panic site and no recover *)
-Theorem C01_only_unguarded_goroutine : filter unguarded goroutines = [(24, 481, false, true)%N].
-Proof. exact only_unguarded_goroutine. Qed.
+(* every goroutine the 24 services start either has no panic site or recovers *)
+Theorem C01_every_goroutine_guarded : forall g, In g goroutines -> unguarded g = false.
+Proof. exact every_goroutine_guarded. Qed.
 
 (* ---- ssh-simulator env / exec ---- *)
-(* with 1..3 bytes left the loop never ends and its slice gains one element per iteration *)
-Theorem C01_ssh_stuck_diverges : forall fuel d acc,
-  wf d -> 1 <= avail d <= 3 ->
-  exists l, ssh_loop fuel d acc = OutOfFuel l /\ length l = (length acc + fuel)%nat.
-Proof. exact ssh_loop_stuck. Qed.
+(* from every decoder state the loop ends within avail+1 iterations; more fuel changes nothing *)
+Theorem C01_ssh_loop_terminates : forall n d acc,
+  wf d -> avail d < Z.of_nat n ->
+  exists l, forall m, (n <= m)%nat -> ssh_loop m d acc = Done l.
+Proof. exact ssh_loop_terminates. Qed.
 
-(* the fuel used by the model decides for every payload: either the loop ends (and more
-   fuel changes nothing) or it runs for ever, allocating without bound *)
-Theorem C01_ssh_fuel_decides : forall p,
-  (exists l, forall m, (ssh_fuel p <= m)%nat -> ssh_loop m (new_decoder p) [] = Done l) \/
-  (forall m, exists l, ssh_loop m (new_decoder p) [] = OutOfFuel l /\ length l = m).
-Proof. exact ssh_fuel_decides. Qed.
-
-Theorem C01_ssh_fatal_is_the_loop : forall ty p s,
-  ssh_request ty p = RFatal s ->
-  s = F_SSH_LOOP /\ (ty = 1 \/ ty = 2)%N /\
-  forall m, exists l, ssh_loop m (new_decoder p) [] = OutOfFuel l /\ length l = m.
-Proof. exact ssh_request_fatal. Qed.
-
-Theorem C01_ssh_ok_terminates : forall ty p,
-  ssh_request ty p = ROk -> (ty = 1 \/ ty = 2)%N ->
+(* the fuel bound used by the model suffices for every payload *)
+Theorem C01_ssh_fuel_suffices : forall p,
   exists l, forall m, (ssh_fuel p <= m)%nat -> ssh_loop m (new_decoder p) [] = Done l.
+Proof. exact ssh_fuel_suffices. Qed.
+
+Theorem C01_ssh_request_never_fatal : forall ty p, ssh_request ty p = ROk.
 Proof. exact ssh_request_ok. Qed.
 
-Theorem C01_ssh_no_other_outcome : forall ty p,
-  ssh_request ty p = ROk \/ ssh_request ty p = RFatal F_SSH_LOOP.
-Proof. exact ssh_request_range. Qed.
+Theorem C01_ssh_dialogue_never_fatal : forall rs, ssh_requests rs = ROk.
+Proof. exact ssh_requests_ok. Qed.
 
-Theorem C01_ssh_refuted : exists ty p, ssh_request ty p = RFatal F_SSH_LOOP /\ length p = 1%nat.
-Proof. exists 1%N, [1%N]. vm_compute. split; reflexivity. Qed.
+(* ---- tftp: the shared map under every interleaving of any number of connections ---- *)
+Theorem C01_tftp_no_schedule_fatal : forall dgss sched,
+  trun (t_init (map (tftp_thread false) dgss)) sched <> TFatal.
+Proof. exact tftp_no_schedule_fatal. Qed.
 
-(* ---- tftp: the shared map under every interleaving ---- *)
-Theorem C01_tftp_no_writer_safe : forall sched ts,
-  Forall (fun t => has_write t = false) ts -> trun (mkT ts false) sched <> TFatal.
-Proof. exact tftp_no_writer_safe_aux. Qed.
-
-Theorem C01_tftp_single_connection_safe : forall dgs sched,
-  trun (mkT [tftp_thread false dgs] false) sched <> TFatal.
-Proof. intros dgs sched. exact (tftp_single_safe_aux sched _ false (tftp_thread_wb dgs false)). Qed.
-
-Theorem C01_tftp_race_refuted :
-  let wrq := [0; 2; 97; 0; 111; 0]%N in
-  exists sched, trun (mkT (map (tftp_thread false) [[wrq]; [wrq]]) false) sched = TFatal.
-Proof. exists [0; 0; 0; 1; 1; 1]%nat. vm_compute. reflexivity. Qed.
+(* the invariant behind it, for any well-locked programs: one step keeps it and is not fatal *)
+Theorem C01_tftp_mutual_exclusion : forall s i,
+  tinv s -> tstep s i <> TFatal /\ (forall s', tstep s i = TRun s' -> tinv s').
+Proof. exact tstep_inv. Qed.
 
 (* ---- vnc ---- *)
-Theorem C01_vnc_needs_update_request : forall stream,
+(* every stream: whatever pixel formats and update requests in whatever order *)
+Theorem C01_vnc_never_fatal : forall stream, vnc_handle stream = ROk.
+Proof. exact vnc_handle_ok. Qed.
+
+Theorem C01_vnc_pusher_failure_needs_update_request : forall stream,
   vnc_verdict stream <> 0%N -> v_pusher (vp_state (vnc_parse stream)) = true.
 Proof. exact vnc_verdict_needs_pusher. Qed.
 
@@ -82,14 +86,6 @@ Theorem C01_vnc_failing_formats : forall f,
   pf_tc f <> 0%N /\ (is_thousands f = true \/ pf_bpp f = 32 \/ pf_bpp f = 16 \/ pf_bpp f = 8)%N.
 Proof. exact push_fails_spec. Qed.
 
-Theorem C01_vnc_refuted :
-  let hello := V8 ++ [1; 1]%N in
-  let palette := [0; 0;0;0; 8;8;0;0; 0;7;0;7;0;3; 0;3;6; 0;0;0]%N in
-  let update := [3; 0; 0;0;0;0;0;8;0;6]%N in
-  vnc_verdict (hello ++ palette ++ update) = 2%N /\ vnc_verdict (hello ++ update ++ palette) = 2%N /\
-  vnc_verdict (hello ++ palette) = 0%N /\ vnc_verdict (hello ++ update) = 0%N.
-Proof. vm_compute. repeat split; reflexivity. Qed.
-
 (* ---- counterstrike, adb: at worst a recoverable panic ---- *)
 Theorem C01_counterstrike_never_fatal : forall dg, cs_handle dg = ROk \/ cs_handle dg = RPanic 1.
 Proof. exact cs_never_fatal. Qed.
@@ -97,51 +93,73 @@ Proof. exact cs_never_fatal. Qed.
 Theorem C01_adb_never_fatal : forall segs, adb_handle segs = ROk \/ adb_handle segs = RPanic 2.
 Proof. exact adb_never_fatal. Qed.
 
-(* ---- declared-length allocation (snmp, ldap) ---- *)
+(* ---- declared-length allocation (snmp, ldap) and ber nesting (ldap): the recorded classes ---- *)
 Theorem C01_alloc_fatal_iff : forall L, alloc_verdict L = 2%N <-> MEM_SURE < L <= MAXALLOC.
 Proof. exact alloc_fatal_iff. Qed.
 
 Theorem C01_alloc_small_fine : forall L, 0 <= L <= MEM_SAFE -> alloc_verdict L = 0%N.
 Proof. exact alloc_small_fine. Qed.
 
-Theorem C01_snmp_refuted : snmp_first [48; 133; 64; 0; 0; 0; 0]%N = Some (RFatal F_ALLOC).
+Theorem C01_first_tlv_fatal_iff : forall site t s,
+  res_of_tlv site t = Some (RFatal s) <-> in_oom_class t = true /\ s = F_ALLOC.
+Proof. exact res_of_tlv_fatal_iff. Qed.
+
+Theorem C01_ldap_nest_fatal_iff : forall seg rep s,
+  ldap_nest seg rep = Some (RFatal s) <-> STACK_SURE <= ldap_depth seg rep /\ s = F_STACK.
+Proof. exact ldap_nest_fatal_iff. Qed.
+
+Theorem C01_snmp_oom_refuted :
+  in_oom_class (snmp_tlv [48; 133; 64; 0; 0; 0; 0]%N) = true /\
+  snmp_first [48; 133; 64; 0; 0; 0; 0]%N = Some (RFatal F_ALLOC).
+Proof. vm_compute. split; reflexivity. Qed.
+
+Theorem C01_ldap_oom_refuted :
+  in_oom_class (ldap_tlv [4; 133; 64; 0; 0; 0; 0]%N) = true /\
+  ldap_first [4; 133; 64; 0; 0; 0; 0]%N = Some (RFatal F_ALLOC).
+Proof. vm_compute. split; reflexivity. Qed.
+
+Theorem C01_ldap_nest_refuted :
+  ldap_nest [48; 128; 48; 128]%N 5999999 = Some (RFatal F_STACK).
 Proof. vm_compute. reflexivity. Qed.
 
-Theorem C01_ldap_refuted : ldap_first [4; 133; 64; 0; 0; 0; 0]%N = Some (RFatal F_ALLOC).
-Proof. vm_compute. reflexivity. Qed.
-
-(* the full statement does not hold of the code as it is *)
+(* the full statement fails - by the recorded defects - ... *)
 Theorem C01_full_refuted : ~ C01_full.
-Proof.
-  intros (H & _). apply (H 1%N [1%N] F_SSH_LOOP). vm_compute. reflexivity.
-Qed.
+Proof. exact full_refuted. Qed.
 
-(* non-vacuity: a decoder state meeting the hypotheses of the divergence theorem, and a
-   payload on which the loop ends *)
-Example C01_stuck_nonvacuous :
-  let d := new_decoder [0; 0; 0; 1; 65; 7]%N in
-  wf (fst (pd_string d)) /\ avail (fst (pd_string d)) = 1 /\ ssh_request 2 [0; 0; 0; 1; 65]%N = ROk.
-Proof. vm_compute. repeat split; discriminate. Qed.
+(* ... and holds for every modelled service outside exactly those classes *)
+Theorem C01_outside_findings : C01_outside.
+Proof. exact outside_findings. Qed.
+
+(* non-vacuity: inputs outside the finding classes exist for each hypothesis, and the
+   repaired loop is exercised on the former witnesses *)
+Example C01_outside_nonvacuous :
+  in_oom_class (snmp_tlv [48; 3; 2; 1; 0]%N) = false /\
+  in_oom_class (ldap_tlv [4; 133; 0; 0; 0; 0; 9]%N) = false /\
+  ldap_depth [48; 128; 48; 128; 0; 0]%N 7 < STACK_SURE /\
+  ssh_loop 2 (new_decoder [1]%N) [] = Done [] /\
+  ssh_loop 3 (new_decoder [0; 0; 0; 1; 65; 0; 0; 0]%N) [] = Done [[65%N]].
+Proof. vm_compute. repeat split; reflexivity. Qed.
 
 Print Assumptions C01_handle_confines.
 Print Assumptions C01_process_down_only_by_fatal.
-Print Assumptions C01_only_unguarded_goroutine.
-Print Assumptions C01_ssh_stuck_diverges.
-Print Assumptions C01_ssh_fuel_decides.
-Print Assumptions C01_ssh_fatal_is_the_loop.
-Print Assumptions C01_ssh_ok_terminates.
-Print Assumptions C01_ssh_no_other_outcome.
-Print Assumptions C01_ssh_refuted.
-Print Assumptions C01_tftp_no_writer_safe.
-Print Assumptions C01_tftp_single_connection_safe.
-Print Assumptions C01_tftp_race_refuted.
-Print Assumptions C01_vnc_needs_update_request.
+Print Assumptions C01_every_goroutine_guarded.
+Print Assumptions C01_ssh_loop_terminates.
+Print Assumptions C01_ssh_fuel_suffices.
+Print Assumptions C01_ssh_request_never_fatal.
+Print Assumptions C01_ssh_dialogue_never_fatal.
+Print Assumptions C01_tftp_no_schedule_fatal.
+Print Assumptions C01_tftp_mutual_exclusion.
+Print Assumptions C01_vnc_never_fatal.
+Print Assumptions C01_vnc_pusher_failure_needs_update_request.
 Print Assumptions C01_vnc_failing_formats.
-Print Assumptions C01_vnc_refuted.
 Print Assumptions C01_counterstrike_never_fatal.
 Print Assumptions C01_adb_never_fatal.
 Print Assumptions C01_alloc_fatal_iff.
 Print Assumptions C01_alloc_small_fine.
-Print Assumptions C01_snmp_refuted.
-Print Assumptions C01_ldap_refuted.
+Print Assumptions C01_first_tlv_fatal_iff.
+Print Assumptions C01_ldap_nest_fatal_iff.
+Print Assumptions C01_snmp_oom_refuted.
+Print Assumptions C01_ldap_oom_refuted.
+Print Assumptions C01_ldap_nest_refuted.
 Print Assumptions C01_full_refuted.
+Print Assumptions C01_outside_findings.
